@@ -257,10 +257,11 @@ def degree():
 def activation(draw, n):
     cls = draw(st.sampled_from(["General", "First", "Last", "Highest", "Lowest", "Threshold", "Proportional"]))
     thr = st.one_of(st.sampled_from(TH), st.floats(0, 1), st.integers(0, 8).map(lambda k: k / 8))
+    count = st.one_of(st.integers(0, n + 1), st.integers(0, n + 1), st.sampled_from([10, 12, 25, 100]))  # n > #rules = all
     if cls in ("First", "Last"):
-        return {"cls": cls, "rules": draw(st.integers(0, n + 1)), "threshold": draw(thr)}
+        return {"cls": cls, "rules": draw(count), "threshold": draw(thr)}
     if cls in ("Highest", "Lowest"):
-        return {"cls": cls, "rules": draw(st.integers(0, n + 1))}
+        return {"cls": cls, "rules": draw(count)}
     if cls == "Threshold":
         return {"cls": cls, "comparator": draw(st.sampled_from(CMP)), "threshold": draw(thr)}
     return {"cls": cls}
